@@ -52,7 +52,7 @@ type Config struct {
 	InputLen    int
 	LockGuard   *LockGuard
 	CheckPrefix []string // when set, only harness checks whose id starts with one of these are decided (others are skipped, not assumed)
-	LossyFmt    bool // decimal/hex rendering of symbolic integers yields a placeholder (totality harnesses only)
+	LossyFmt    bool     // decimal/hex rendering of symbolic integers yields a placeholder (totality harnesses only)
 }
 
 type Exec struct {
